@@ -247,7 +247,9 @@ def mkParserIn {V : Type} (W : World V) (prev : List (Built V)) (c : ClassDecl V
         -- (a dropped name that is no key of a field taken over would be read as a new field with default `...`:
         --  outside the modelled fragment, reported as not well-formed)
         depsOk := (fs.all fun kf => kf.2.deps.all fun dep => (depKey fs amap dep).isSome)
-                  && c.drops.all fun k => dhas k inherited
+                  && (c.drops.all fun k => dhas k inherited)
+                  -- two fields of one body under the same key: ConfigError "field name conflicted" (cls.py:214-222)
+                  && decide (own.map (·.1)).Nodup
         excludeVars := exclIn ++ c.excluded }
     opts := eo, additionTyped := typed, annotations := annOut }
 
